@@ -7,21 +7,19 @@
      to_props / from_props   <kind>_sliver_to_graph_properties_dict / <kind>_sliver_from_graph_properties_dict
      to_dict / from_dict     sliver_to_dict / build_deep_*_sliver_from_dict
      sliver_to_json / sliver_from_json   JSONSliver (JSON values; the text level is not modelled)
+     graph_roundtrip         add_*_sliver into an empty in-memory graph, then build_deep_*_sliver
      set_property / get_property         <Element>.set_property / get_property / unset_property
-   k ranges over the five sliver classes; attrs is the sliver's __dict__ (data attributes);
-   field values are tokens (Model/Sliver2Kinds.v fval).
+   k ranges over the five sliver classes; attrs is the sliver's __dict__ (data attributes); field values
+   are tokens (Model/Sliver2Kinds.v fval).
 
-   FULL STATEMENT (what the property asks):
-     (R)  forall k a, attrs_wf k a = true -> bind (to_props k a) (from_props k) = Ok a
-          and the same for trees through the dictionary, JSON and graph routes;
-     (S)  get (set p v) = v and get (unset p) = None for every settable property p.
-   (R) and (S) are FALSE of the faithful model in the ways named by the `_refuted` theorems below (each
-   witness is replayed on the implementation on every run, harness/c02.py refuted_witnesses); what
-   holds instead is stated exactly (normalize, forget_ids, stored, unset_reads) and the `_exact`/`_absent`
-   versions give the property as asked under a hypothesis that excludes just the defect's signature. *)
+   What is NOT true of the code and therefore not claimed (witness replayed on every run):
+   image_ref and image_type are stored as one graph property, so setting either of them alone is a
+   silent no-op (C02_set_get_image_ref_refuted) - C02_set_get excludes exactly these two (single_written).
+   Documented, not a deviation: a value object with nothing set is encoded as empty text and read back as
+   absent (C03's statement; C02_empty_value_reads_absent) - attrs_wf asks for non-empty objects. *)
 From Coq Require Import List String NArith Bool.
 From FIM Require Import Base.Str Model.Sliver2Kinds Gen.PropMap Model.Sliver2Map Model.Sliver2WF
-  Model.Sliver2Deep Model.Sliver2DeepWF Model.Sliver2Graph Proofs.Sliver2DeepRT Proofs.Sliver2GraphRT
+  Model.Sliver2Deep Model.Sliver2DeepWF Model.Sliver2Graph Model.Sliver2GraphWF Proofs.Sliver2DeepRT
   Proofs.Sliver2Tables.
 Import ListNotations.
 
@@ -33,40 +31,31 @@ Print Assumptions C02_translated.
 (* TABLE SYMMETRY.  For every sliver class and every data attribute of the class: the attribute is
    written by exactly one statement, read back by exactly one keyword whose setter assigns that
    attribute, through the same graph property, with an encoder/decoder/setter triple that is inverse
-   (inv_ok); no graph property collides with a child key or NodeID; absent properties read as
-   documented.  A finite check over the regenerated tables - the domain is the table. *)
+   (inv_ok); no graph property collides with a child key or NodeID; an absent property reads as None
+   (no from_json wraps it).  A finite check over the regenerated tables - the domain is the table. *)
 Theorem C02_tables_symmetric :
-  forallb (fun k => tables_symmetric k && dict_tables_ok k && absent_ok k)
+  forallb (fun k => tables_symmetric k && dict_tables_ok k && absent_ok k && absent_none k)
           [KNode; KComponent; KService; KInterface; KLink] = true.
 Proof. exact all_tables_ok_true. Qed.
 Print Assumptions C02_tables_symmetric.
 
+(* add_interface_sliver descends into the interface's child interfaces (regenerated flag) *)
+Theorem C02_interface_writer_descends : add_interface_descends = true.
+Proof. exact add_interface_descends_true. Qed.
+Print Assumptions C02_interface_writer_descends.
+
 (* FLAT ROUND TRIP, all well-formed slivers of all five classes (lifted from the table check by a
-   generic lemma): rebuilding a sliver from its graph properties returns the same value for every
-   attribute, except that an attribute that is None comes back as what an absent property reads as
-   (normalize: identity but for the gateway of a service, see C02_props_roundtrip_refuted). *)
+   generic lemma): the sliver rebuilt from its graph properties has the same value for every attribute. *)
 Theorem C02_props_roundtrip : forall k a,
-  attrs_wf k a = true -> bind (to_props k a) (from_props k) = Ok (normalize k a).
+  attrs_wf k a = true -> bind (to_props k a) (from_props k) = Ok a.
 Proof. exact props_roundtrip. Qed.
 Print Assumptions C02_props_roundtrip.
 
-Theorem C02_props_roundtrip_exact_partial : forall k a,
-  attrs_wf k a = true -> is_normal k a = true -> bind (to_props k a) (from_props k) = Ok a.
-Proof. exact props_roundtrip_exact. Qed.
-Print Assumptions C02_props_roundtrip_exact_partial.
-
-(* (R) is false: a freshly built named network service (gateway None) comes back with an empty
-   Gateway object *)
-Theorem C02_props_roundtrip_refuted :
-  exists k a, attrs_wf k a = true /\ bind (to_props k a) (from_props k) <> Ok a.
-Proof. exact props_roundtrip_refuted. Qed.
-Print Assumptions C02_props_roundtrip_refuted.
-
-(* the hypothesis attrs_wf excludes empty value objects (canonical text ''): they read back as absent *)
-Theorem C02_empty_object_reads_absent_refuted :
+(* documented (C03): a value object with nothing set is encoded as '' and reads back as absent *)
+Theorem C02_empty_value_reads_absent :
   bind (to_props KNode w_empty_caps) (from_props KNode) = Ok (aset "capacities" None w_empty_caps).
-Proof. exact empty_object_refuted. Qed.
-Print Assumptions C02_empty_object_reads_absent_refuted.
+Proof. exact empty_value_reads_absent. Qed.
+Print Assumptions C02_empty_value_reads_absent.
 
 (* DEEP DICTIONARY ROUND TRIP, any nesting (induction on the sliver tree): same structure, same value
    of every attribute; node ids are not part of the dictionary form (forget_ids). *)
@@ -85,6 +74,17 @@ Theorem C02_json_values_roundtrip : forall d, jv_to_dd (dd_to_jv d) = Some d.
 Proof. exact json_value_roundtrip. Qed.
 Print Assumptions C02_json_values_roundtrip.
 
+(* GRAPH ROUND TRIP, any nesting: node > components > services > interfaces > sub-interfaces,
+   node > services, stand-alone service / interface / link, any number of children at every level.
+   Written into an empty graph of the in-memory backend model with add_*_sliver and rebuilt with
+   build_deep_*_sliver, the tree comes back IDENTICAL: structure, every attribute, node ids.
+   graph_wf: tree_wf, every sliver has its own node id, only DedicatedPort interfaces have child
+   interfaces and those are leaves that are not DedicatedPorts (what the readers descend into),
+   the root is not a component (components are only written under a node). *)
+Theorem C02_graph_roundtrip : forall t, graph_wf t = true -> graph_roundtrip t = Ok t.
+Proof. exact graph_roundtrip_thm. Qed.
+Print Assumptions C02_graph_roundtrip.
+
 (* GET AFTER SET, every element class, every settable property written by a statement of its own:
    reading back returns what the setter stores (stored), which is the argument itself for every setter
    but set_management_ip (C02_set_get_same). *)
@@ -94,14 +94,14 @@ Theorem C02_set_get : forall k p v d x,
 Proof. exact set_get. Qed.
 Print Assumptions C02_set_get.
 
-Theorem C02_set_get_same_partial : forall k p v d x,
+Theorem C02_set_get_same : forall k p v d x,
   settable k p = Some x -> single_written k x = true -> stores_argument k p = true ->
   value_ok k p v = true -> readable k d = true ->
   exists d', set_property k p (Some v) d = Ok d' /\ get_property k p d' = Ok (Some v).
 Proof. exact set_get_same. Qed.
-Print Assumptions C02_set_get_same_partial.
+Print Assumptions C02_set_get_same.
 
-(* (S) is false for the two halves of the image pair: set_property('image_ref', v) is a silent no-op *)
+(* the two halves of the image pair are NOT single_written: set_property('image_ref', v) is a silent no-op *)
 Theorem C02_set_get_image_ref_refuted :
   readable KNode w_node_props = true /\
   exists d', set_property KNode "image_ref" (Some (FStr (S"img"))) w_node_props = Ok d' /\
@@ -109,38 +109,14 @@ Theorem C02_set_get_image_ref_refuted :
 Proof. exact image_ref_alone_refuted. Qed.
 Print Assumptions C02_set_get_image_ref_refuted.
 
-(* ... and an image_ref with a comma makes every later read of the node raise *)
-Theorem C02_image_ref_with_comma_refuted :
-  exists d', set_properties KNode [("image_ref", Some (FStr (S"a,b"))); ("image_type", Some (FStr (S"qcow2")))]%string
-                            w_node_props = Ok d' /\
-             get_property KNode "site" d' = Err ExValue.
-Proof. exact image_comma_refuted. Qed.
-Print Assumptions C02_image_ref_with_comma_refuted.
-
 (* GET AFTER UNSET, every element class, every property SLIVER_PROPERTY_TO_GRAPH maps to a graph
-   property that may be removed: reads the absent value (unset_reads), which is None for every such
-   property but the gateway of a service. *)
+   property that may be removed: reads None. *)
 Theorem C02_unset_get : forall k p d x g,
   settable k p = Some x -> alookup p sliver_property_to_graph = Some g ->
   mem g no_unset_properties = false -> readable k d = true ->
-  exists d', set_property k p None d = Ok d' /\ get_property k p d' = Ok (unset_reads k x).
-Proof. exact unset_get. Qed.
-Print Assumptions C02_unset_get.
-
-Theorem C02_unset_get_absent_partial : forall k p d x g,
-  settable k p = Some x -> alookup p sliver_property_to_graph = Some g ->
-  mem g no_unset_properties = false -> readable k d = true ->
-  (kind_eqb k KService && String.eqb p "gateway") = false ->
   exists d', set_property k p None d = Ok d' /\ get_property k p d' = Ok None.
 Proof. exact unset_get_absent. Qed.
-Print Assumptions C02_unset_get_absent_partial.
-
-Theorem C02_unset_gateway_refuted :
-  readable KService w_service_props = true /\
-  exists d', set_property KService "gateway" None w_service_props = Ok d' /\
-             get_property KService "gateway" d' = Ok (Some (FObj "Gateway" None)).
-Proof. exact unset_gateway_refuted. Qed.
-Print Assumptions C02_unset_gateway_refuted.
+Print Assumptions C02_unset_get.
 
 (* which settable properties have no unset mapping (their unset is a silent no-op): exactly these -
    a forgotten mapping (as `location` was before fix 85687de) changes this list *)
@@ -162,35 +138,22 @@ Theorem C02_unset_refused : forall k p d g,
 Proof. exact unset_refused. Qed.
 Print Assumptions C02_unset_refused.
 
-(* GRAPH ROUTE (model of the in-memory backend).  Slivers without children - node, stand-alone service,
-   interface, link - written into an empty graph and rebuilt: every attribute and the node id come
-   back (flat k id a = T k (Some id) a None None None).  For trees with children the graph route has
-   no unbounded theorem: executable model tied on every run, and: *)
-Theorem C02_graph_flat_roundtrip : forall k id a,
-  kind_eqb k KComponent = false -> attrs_wf k a = true -> is_normal k a = true ->
-  graph_roundtrip (flat k id a) = Ok (flat k id a).
-Proof. exact graph_flat_roundtrip. Qed.
-Print Assumptions C02_graph_flat_roundtrip.
-
-(* it loses the sub-interfaces of interfaces: *)
-Theorem C02_graph_route_drops_subinterfaces_refuted :
-  tree_wf w_tree' = true /\ graph_roundtrip w_tree' = Ok (drop_subifs w_tree') /\ drop_subifs w_tree' <> w_tree'.
-Proof. exact graph_route_refuted. Qed.
-Print Assumptions C02_graph_route_drops_subinterfaces_refuted.
-
 (* ---------- non-vacuity ---------- *)
-(* a 5-level tree satisfies tree_wf and round-trips through the dictionary *)
+(* a 5-level tree (node > component > service > DedicatedPort > sub-interface) satisfies graph_wf and
+   tree_wf and round-trips through the graph and through the dictionary *)
+Example C02_graph_nonvacuous :
+  graph_wf w_tree = true /\ graph_roundtrip w_tree = Ok w_tree /\ List.length (subtrees w_tree) = 5%nat.
+Proof. exact graph_example. Qed.
+
 Example C02_deep_nonvacuous :
-  tree_wf w_tree' = true /\ bind (to_dict w_tree') (from_dict KNode) = Ok (forget_ids w_tree')
-  /\ forget_ids w_tree' <> T KNode None [] None None None.
+  tree_wf w_tree = true /\ bind (to_dict w_tree) (from_dict KNode) = Ok (forget_ids w_tree)
+  /\ forget_ids w_tree <> T KNode None [] None None None.
 Proof. exact deep_example. Qed.
 
-Example C02_graph_flat_nonvacuous :
-  attrs_wf KService (aset "gateway" gw_none w_service) = true /\
-  is_normal KService (aset "gateway" gw_none w_service) = true /\
-  graph_roundtrip (flat KService (S"s1") (aset "gateway" gw_none w_service))
-  = Ok (flat KService (S"s1") (aset "gateway" gw_none w_service)).
-Proof. exact graph_flat_example. Qed.
+(* a freshly built named service (gateway None) comes back equal *)
+Example C02_fresh_service :
+  attrs_wf KService w_service = true /\ bind (to_props KService w_service) (from_props KService) = Ok w_service.
+Proof. exact fresh_service_roundtrip. Qed.
 
 (* real values satisfy the hypotheses of the element theorems *)
 Example C02_element_nonvacuous :
@@ -203,10 +166,17 @@ Example C02_element_nonvacuous :
   mem "Site" no_unset_properties = false.
 Proof. vm_compute. repeat split; reflexivity. Qed.
 
-(* the pair set together is read back (by computation on an instance; no general theorem) *)
+(* the pair set together is read back, also with a comma in the reference (fix 8fdfa94); unsetting the
+   gateway of a service reads None (fix 450b7bb) - instances, by computation *)
 Example C02_image_pair_set_together :
-  exists d', set_properties KNode [("image_ref", Some (FStr (S"img"))); ("image_type", Some (FStr (S"qcow2")))]%string
+  exists d', set_properties KNode [("image_ref", Some (FStr (S"a,b"))); ("image_type", Some (FStr (S"qcow2")))]%string
                             w_node_props = Ok d' /\
-             get_property KNode "image_ref" d' = Ok (Some (FStr (S"img"))) /\
+             get_property KNode "image_ref" d' = Ok (Some (FStr (S"a,b"))) /\
              get_property KNode "image_type" d' = Ok (Some (FStr (S"qcow2"))).
-Proof. exact image_pair_example. Qed.
+Proof. exact image_comma_example. Qed.
+
+Example C02_unset_gateway :
+  readable KService w_service_props = true /\
+  exists d', set_property KService "gateway" None w_service_props = Ok d' /\
+             get_property KService "gateway" d' = Ok None.
+Proof. exact unset_gateway_example. Qed.
